@@ -46,6 +46,23 @@ def gen_case(r, i, tier):
     d = int(r.choice([1, 2, 3, 4]))
     n = int(r.choice([1, 2, 7]))
     lo, hi = gen_bounds(r, d, width == "f32")
+    if i % 9 == 4:
+        # every range has width EXACTLY one, none (or not all) of them starting at zero: [-0.5, 0.5], [1, 2], [-1, 0], [100, 101]
+        lo = [float(r.choice([-0.5, 1.0, -1.0, 0.0, 100.0, -3.0])) for _ in range(d)]
+        if all(v == 0.0 for v in lo):
+            lo[0] = -0.5
+        hi = [v + 1.0 for v in lo]
+    elif i % 9 == 7 and cls in ("composite", "logit", "probit"):
+        # MANY parameters whose widths multiply to something outside the range of the working precision (twenty parameters on [-50, 50]
+        # in float32, thirty narrow ones, a dozen of width 1e26 in float64): the log-Jacobian is the SUM of the logs of the widths
+        if width == "f32":
+            d = int(r.choice([20, 30]))
+            w_ = float(r.choice([100.0, 1e-2]))
+        else:
+            d = 12
+            w_ = float(r.choice([1e26, 1e-27]))
+        lo = [-0.5 * w_] * d
+        hi = [0.5 * w_] * d
     c = {"cls": cls, "ns": nsn, "width": width, "d": d, "n": n, "lo": lo, "hi": hi, "bounded_kind": str(r.choice(["logit", "probit"])),
          "periodic_on": False, "bounded_on": False, "affine_on": False, "periodic_idx": [], "shape1d": False, "order": i % 3}
     if cls == "composite":
